@@ -94,6 +94,14 @@ CleanupDirAsBuilt(b, remaining) ==
            rs == SlashPos(rest)
            sub == IF rs = {} THEN rest ELSE SubSeq(rest, 1, Min(rs) - 1)         \* split('/').next()
        IN <<"tree">> \o (IF Len(used) = 0 THEN <<>> ELSE Segs(used)) \o <<SegStr(sub)>>
+\* Branches::get_cleanup_path after "fix: deleting a branch compared branch names character by character":
+\* names are compared segment by segment; the first directory on the way to the branch that no remaining
+\* branch uses is removed; still "delete nothing" when the branch's path is a prefix of another branch's.
+CommonSegs(p, q) == Max({k \in 0..Min({Len(p), Len(q)}) : \A i \in 1..k : p[i] = q[i]})
+CleanupDirSegments(b, remaining) ==
+  LET sb == Segs(b)
+      longest == Max({0} \cup {CommonSegs(sb, Segs(c)) : c \in remaining}) IN
+  IF longest = Len(sb) THEN <<>> ELSE <<"tree">> \o SubSeq(sb, 1, longest + 1)
 \* intended: the branch's own directory, unless another branch lives below it (then only the
 \* standard sub-directories of the branch itself go; expressed on files by ownership, see LanceRefs)
 CleanupDirIntended(b) == BranchDir(b)
